@@ -13,6 +13,9 @@ Program AST (all names are strings, constants are ints or strs):
   stmt  = ["const", x, c] | ["copy", x, y] | ["bin", x, op, a, b]   (a, b: ["v", name] | ["c", const])
         | ["if", i, then, else]           (branches on decision parameter d<i>, each i used once)
         | ["new", x, cls, a] | ["fwrite", o, f, a] | ["fread", x, o, f] | ["call", x, h, [a…]]
+        | ["list", x, [a…]] | ["awrite", l, i, a] | ["aread", x, l, i]   (list literal, element write/read, constant index)
+        | ["callp", h, [a…]]              (call statement whose result is not used)
+  a helper's body is a list of such statements (no `if`); it may call other helpers; "ret" may be None
 Canonical abstract element: ["i", n] | ["s", text] | ["b", bool] | ["o", line] | ["u"]; a value set
 is a sorted list of distinct elements.
 """
@@ -106,6 +109,14 @@ class Renderer:
                 rec(self.emit(f"{s[1]} = {s[2]}.{s[3]}", ind), s[1], "fread")
             elif t == "call":
                 rec(self.emit(f"{s[1]} = {s[2]}({', '.join(opnd(a) for a in s[3])})", ind), s[1], "call")
+            elif t == "callp":
+                self.emit(f"{s[1]}({', '.join(opnd(a) for a in s[2])})", ind)
+            elif t == "list":
+                rec(self.emit(f"{s[1]} = [{', '.join(opnd(a) for a in s[2])}]", ind), s[1], "list")
+            elif t == "awrite":
+                self.emit(f"{s[1]}[{s[2]}] = {opnd(s[3])}", ind)
+            elif t == "aread":
+                rec(self.emit(f"{s[1]} = {s[2]}[{s[3]}]", ind), s[1], "aread")
             else:
                 raise ValueError(t)
 
@@ -122,7 +133,10 @@ class Renderer:
                                   "kind": "param", "sid": ["h", h["name"], p]})
             if h["body"]:
                 self.stmts(prog, h["name"], h["body"], 1, ["h", h["name"]])
-            self.emit(f"return {h['ret']}", 1)
+            if h.get("ret") is not None:
+                self.emit(f"return {h['ret']}", 1)
+            elif not h["body"]:
+                self.emit("pass", 1)
         params = ", ".join(f"d{i}" for i in range(prog["ndec"]))
         self.emit(f"def {prog['name']}({params}):", 0)
         self.stmts(prog, prog["name"], prog["body"], 1, [])
@@ -297,7 +311,7 @@ def state_elem(row, stmt_line):
         return ["s", "" if _isnan(v) else str(v)]
     if dt in ("%float", "%bool", "%null"):
         return ["x", dt, None if _isnan(v) else str(v)]
-    if isinstance(dt, str) and dt and not dt.startswith("%"):
+    if isinstance(dt, str) and dt and (not dt.startswith("%") or dt == "%array"):
         sid = int(row["alloc_stmt"])
         return ["o", stmt_line.get(sid, -sid)]
     if dt in ("%method_decl", "%class_decl"):
@@ -342,7 +356,7 @@ def alpha(gir, s2list, stlist, defs):
     for d in defs:
         key = d["line"] if d["kind"] != "param" else ("param", d["line"], d["var"])
         cands = [x for x in by_line.get(d["line"], [])
-                 if (x[0] in ("assign_stmt", "call_stmt", "field_read") and x[2] == d["var"])
+                 if (x[0] in ("assign_stmt", "call_stmt", "field_read", "array_read") and x[2] == d["var"])
                  or (x[0] == "parameter_decl" and x[3] == d["var"] and d["kind"] == "param")]
         if len(cands) != 1:
             missing.append((d, "gir statements: %r" % (cands,)))
@@ -718,17 +732,7 @@ def reductions(prog):
                             out.append(rebuild(body[:i] + [t] + body[i + 1:]))
 
     walk(prog["body"], lambda nb: dict(prog, body=nb))
-    res = []
-    for p in out:
-        used = json.dumps(p["body"])
-        p = dict(p, helpers=[h for h in p["helpers"] if f'"{h["name"]}"' in used],
-                 classes=[c for c in p["classes"] if f'"{c["name"]}"' in used])
-        res.append(p)
-    for hi, h in enumerate(prog["helpers"]):
-        if h["body"]:
-            for i in range(len(h["body"])):
-                pass
-    return res
+    return [prune_unused(p) for p in out]
 
 
 def shrink_prog(prog, fails_batch, max_rounds=40):
@@ -771,6 +775,17 @@ def model_prog(prog, defs):
     def opnd_m(a):
         return [a[0], a[1]]
 
+    # helpers that touch the heap or call other helpers are outside the Lean model's helper language:
+    # the program is then compared with the Python exact reference and CPython ground truth only
+    for h in prog.get("helpers", []):
+        if not h["params"] or h.get("ret") is None or any(st[0] not in ("const", "bin") for st in h["body"]):
+            return None
+    # lian's list abstraction is index-insensitive (an element read yields every element ever stored); the
+    # reference model is not: programs with lists are judged by ground-truth coverage only
+    if any(tok in json.dumps(prog["body"]) for tok in ('"list"', '"awrite"', '"aread"')):
+        return None
+    list_classes = []
+
     def block(body, prefix):
         out = []
         for k, s in enumerate(body):
@@ -792,6 +807,19 @@ def model_prog(prog, defs):
                 out.append(["fread", key(sid), s[1], s[2], s[3]])
             elif t == "call":
                 out.append(["call", key(sid), s[1], s[2], [opnd_m(a) for a in s[3]]])
+            elif t == "list":
+                # a list literal is an object whose fields are named by the constant indices
+                cname = f"L{len(list_classes)}_{prog['name']}"
+                list_classes.append({"name": cname, "fields": [[f"#{i}", 0] for i in range(len(s[2]))]})
+                out.append(["new", key(sid), s[1], cname, ["c", 0]])
+                for i, a in enumerate(s[2]):
+                    out.append(["fwrite", s[1], f"#{i}", opnd_m(a)])
+            elif t == "awrite":
+                out.append(["fwrite", s[1], f"#{s[2]}", opnd_m(s[3])])
+            elif t == "aread":
+                out.append(["fread", key(sid), s[1], s[2], f"#{s[3]}"])
+            else:
+                raise ValueError(t)
         return out
 
     helpers = []
@@ -806,17 +834,20 @@ def model_prog(prog, defs):
                 hb.append(["bin", key(sid), s[1], s[2], opnd_m(s[3]), opnd_m(s[4])])
         helpers.append({"name": h["name"], "params": [[f"p{hline}:{p}", p] for p in h["params"]],
                         "body": hb, "ret": h["ret"]})
+    body = block(prog["body"], [])
     classes = [{"name": c["name"], "fields": [[f, None if v == "p" else v] for f, v in c["fields"]]}
-               for c in prog.get("classes", [])]
-    return {"classes": classes, "helpers": helpers, "body": block(prog["body"], [])}
+               for c in prog.get("classes", []) + list_classes]
+    return {"classes": classes, "helpers": helpers, "body": body}
 
 
 def aref_batch(progs, defs, variant="current"):
     """Runs the Lean reference interpreter on every program.  Returns {def key: sorted element list}
     (same key and element shapes as `alpha`) and the list of programs on which the model is undefined."""
-    reqs = [{"m": "aref", "variant": variant, "prog": model_prog(p, defs)} for p in progs]
     import foldcheck
-    outs = foldcheck.drv(reqs)
+    mps = [model_prog(p, defs) for p in progs]
+    outs_some = foldcheck.drv([{"m": "aref", "variant": variant, "prog": m} for m in mps if m is not None]) if any(m is not None for m in mps) else []
+    it = iter(outs_some)
+    outs = [next(it) if m is not None else None for m in mps]
     res, undefined = {}, []
     for p, o in zip(progs, outs):
         if o is None:
@@ -843,15 +874,58 @@ def aref_batch(progs, defs, variant="current"):
 # oracle of C09, written independently of the Lean model
 # ------------------------------------------------------------------------------------------------
 
-def pyref(prog, defs):
-    """{def key: sorted element list}.  Variables and fields hold sets of values; a binary operation yields
-    the results of all operand combinations (Python's own operators on the data); assignment and field
-    write through a single-object receiver replace, `if` joins by union; objects are allocation lines.
-    A field write through a receiver with several possible objects is a weak update (this oracle states what
-    is sound and exact, not what lian does).  Returns None when some operation raises for some combination.
-    Values are kept as (tag, value) pairs: in a Python set True and 1 would be one element."""
+def helper_closure(prog, names):
+    """names of helpers reachable from the helper names in `names`."""
+    helpers = {h["name"]: h for h in prog.get("helpers", [])}
+    seen, todo = set(), list(names)
+    while todo:
+        n = todo.pop()
+        if n in seen or n not in helpers:
+            continue
+        seen.add(n)
+        for st in helpers[n]["body"]:
+            if st[0] == "call":
+                todo.append(st[2])
+            elif st[0] == "callp":
+                todo.append(st[1])
+    return seen
+
+
+def prune_unused(prog):
+    """drops helpers and classes the main body does not reach."""
+    body = json.dumps(prog["body"])
+    direct = [h["name"] for h in prog.get("helpers", []) if f'"{h["name"]}"' in body]
+    keep = helper_closure(prog, direct)
+    helpers = [h for h in prog.get("helpers", []) if h["name"] in keep]
+    used = body + json.dumps([h["body"] for h in helpers])
+    return dict(prog, helpers=helpers, classes=[c for c in prog.get("classes", []) if f'"{c["name"]}"' in used])
+
+
+def pyref(prog, defs, with_taint=False):
+    """{def key: sorted element list}.  Variables, fields and list elements hold sets of values; a binary
+    operation yields the results of all operand combinations (Python's own operators on the data); assignment
+    and a field/element write through a single-object receiver replace, `if` joins by union; objects and lists
+    are allocation lines; a call is analysed per call site with the argument sets of that site (helpers may read
+    and write the heap and call other helpers).  A write through a receiver with several possible objects is a
+    weak update (this oracle states what is sound and exact, not what lian does).  Returns None when some
+    operation raises for some combination.  Values are (tag, value) pairs: in a Python set True and 1 would be
+    one element.
+
+    with_taint=True additionally returns the set of definition keys that DEPEND on a root site of the
+    join-revisit findings - a call, a constructor call, a list literal or a field/element write that comes after
+    an if-join: the defined variable of the root site, every object it may write (whole object), the callee's
+    parameters and locals, and everything computed from those.  It also returns, per definition key, the
+    values a field/element held BEFORE a write performed inside a callee through a parameter ("stale": lian keeps
+    them, finding C09/callee-write-keeps-old; "*" = derived from such a value by an operation) and, for
+    definitions inside helpers, the value sets of the single invocations."""
     line_of = {json.dumps(d["sid"]): d["line"] for d in defs if d["prog"] == prog["name"]}
     out = {}
+    tainted = set()
+    stale = {}
+    invocations = {}
+    depth = [0]
+    inv_stack = []
+    ANY = frozenset([("*", "*")])
     classes = {c["name"]: c for c in prog.get("classes", [])}
     helpers = {h["name"]: h for h in prog.get("helpers", [])}
 
@@ -860,6 +934,9 @@ def pyref(prog, defs):
 
     def opv(a, V):
         return V[a[1]] if a[0] == "v" else frozenset([tag(a[1])])
+
+    def opt(a, T):
+        return T.get(a[1], False) if a[0] == "v" else False
 
     def binop(op, A, B):
         res = set()
@@ -870,65 +947,166 @@ def pyref(prog, defs):
                 res.add(tag(safe_binop_unbounded(op, x[1], y[1])))
         return frozenset(res)
 
-    def log(sid, vals):
-        k = line_of[json.dumps(sid)]
-        out.setdefault(k, set()).update(vals)
+    def log(key, vals, t, st=frozenset()):
+        out.setdefault(key, set()).update(vals)
+        if t:
+            tainted.add(key)
+        if st:
+            stale.setdefault(key, set()).update(st)
+        if inv_stack:
+            invocations.setdefault(key, {}).setdefault(inv_stack[-1], set()).update(vals)
 
-    def run(body, prefix, V, H):
+    def ops(a, S):
+        return S.get(a[1], frozenset()) if a[0] == "v" else frozenset()
+
+    def key_of(sid):
+        return line_of[json.dumps(sid)]
+
+    def obj_taint(vals, TH):
+        return any(TH.get((x[1], "*"), False) for x in vals if x[0] == "o")
+
+    def taint_objects(vals, TH):
+        for x in vals:
+            if x[0] == "o":
+                TH[(x[1], "*")] = True
+
+    def write_cell(H, TH, SH, recv, field, val, t, sv):
+        sites = [x[1] for x in recv if x[0] == "o"]
+        for site in sites:
+            cell = H.setdefault(site, {})
+            old = cell.get(field, frozenset())
+            oldst = SH.get((site, field), frozenset())
+            cell[field] = val if len(sites) == 1 else (old | val)
+            TH[(site, field)] = t if len(sites) == 1 else (TH.get((site, field), False) or t)
+            if depth[0] > 0:
+                SH[(site, field)] = sv | old | oldst          # a callee-side write: lian keeps what was there
+            else:
+                SH[(site, field)] = sv if len(sites) == 1 else (sv | oldst)
+
+    def read_cell(H, TH, SH, recv, field):
+        res, t, st = frozenset(), False, frozenset()
+        for x in recv:
+            if x[0] != "o":
+                raise Reject
+            res |= H[x[1]][field]
+            st |= SH.get((x[1], field), frozenset())
+            t = t or TH.get((x[1], field), False) or TH.get((x[1], "*"), False)
+        return res, t, st
+
+    ninv = [0]
+
+    def call(hname, args, V, T, S, H, TH, SH, root):
+        h = helpers[hname]
+        E, TE, SE = {}, {}, {}
+        hline = line_of[json.dumps(["h", h["name"], h["params"][0]])] if h["params"] else None
+        ninv[0] += 1
+        inv_stack.append(ninv[0])
+        depth[0] += 1
+        try:
+            for pname, a in zip(h["params"], args):
+                E[pname] = opv(a, V)
+                TE[pname] = opt(a, T) or root
+                SE[pname] = ops(a, S)
+                log(("param", hline, pname), E[pname], TE[pname] or obj_taint(E[pname], TH), SE[pname])
+                if root:
+                    taint_objects(E[pname], TH)
+            run(h["body"], ["h", h["name"]], E, TE, SE, H, TH, SH, False, root)
+        finally:
+            depth[0] -= 1
+            inv_stack.pop()
+        if h.get("ret") is None:
+            return frozenset(), root, frozenset()
+        return E[h["ret"]], TE.get(h["ret"], False) or root, SE.get(h["ret"], frozenset())
+
+    def run(body, prefix, V, T, S, H, TH, SH, joined, force):
+        """force: everything defined here is tainted (we are inside a callee invoked from a root site)."""
         for k, s in enumerate(body):
             sid = prefix + [k]
             t = s[0]
+            root = force or (joined and t in ("call", "callp", "new", "list", "fwrite", "awrite"))
             if t == "const":
-                V[s[1]] = frozenset([tag(s[2])]); log(sid, V[s[1]])
+                V[s[1]] = frozenset([tag(s[2])]); T[s[1]] = force; S[s[1]] = frozenset()
+                log(key_of(sid), V[s[1]], T[s[1]])
             elif t == "copy":
-                V[s[1]] = V[s[2]]; log(sid, V[s[1]])
+                V[s[1]] = V[s[2]]; T[s[1]] = T.get(s[2], False) or force; S[s[1]] = S.get(s[2], frozenset())
+                log(key_of(sid), V[s[1]], T[s[1]] or obj_taint(V[s[1]], TH), S[s[1]])
             elif t == "bin":
-                V[s[1]] = binop(s[2], opv(s[3], V), opv(s[4], V)); log(sid, V[s[1]])
+                V[s[1]] = binop(s[2], opv(s[3], V), opv(s[4], V))
+                T[s[1]] = opt(s[3], T) or opt(s[4], T) or force
+                S[s[1]] = ANY if (ops(s[3], S) or ops(s[4], S)) else frozenset()
+                log(key_of(sid), V[s[1]], T[s[1]], S[s[1]])
             elif t == "if":
-                V1, H1 = dict(V), {a: dict(b) for a, b in H.items()}
-                V2, H2 = dict(V), {a: dict(b) for a, b in H.items()}
-                run(s[2], sid + [0], V1, H1)
-                run(s[3], sid + [1], V2, H2)
-                V.clear(); H.clear()
+                cp = lambda: (dict(V), dict(T), dict(S), {a: dict(b) for a, b in H.items()}, dict(TH), dict(SH))
+                V1, T1, S1, H1, TH1, SH1 = cp()
+                V2, T2, S2, H2, TH2, SH2 = cp()
+                run(s[2], sid + [0], V1, T1, S1, H1, TH1, SH1, joined, force)
+                run(s[3], sid + [1], V2, T2, S2, H2, TH2, SH2, joined, force)
+                V.clear(); T.clear(); S.clear(); H.clear(); TH.clear(); SH.clear()
+                for v in set(S1) | set(S2):
+                    S[v] = S1.get(v, frozenset()) | S2.get(v, frozenset())
+                for c in set(SH1) | set(SH2):
+                    SH[c] = SH1.get(c, frozenset()) | SH2.get(c, frozenset())
                 for v in set(V1) | set(V2):
                     V[v] = V1.get(v, frozenset()) | V2.get(v, frozenset())
+                    T[v] = T1.get(v, False) or T2.get(v, False)
                 for site in set(H1) | set(H2):
                     fa, fb = H1.get(site, {}), H2.get(site, {})
                     H[site] = {f: fa.get(f, frozenset()) | fb.get(f, frozenset()) for f in set(fa) | set(fb)}
+                for c in set(TH1) | set(TH2):
+                    TH[c] = TH1.get(c, False) or TH2.get(c, False)
+                joined = True
             elif t == "new":
-                site = line_of[json.dumps(sid)]
+                site = key_of(sid)
                 arg = opv(s[3], V)
+                ta = opt(s[3], T) or root
                 H[site] = {f: (arg if v == "p" else frozenset([tag(v)])) for f, v in classes[s[2]]["fields"]}
-                V[s[1]] = frozenset([("o", site)]); log(sid, V[s[1]])
-            elif t == "fwrite":
-                sites = [x[1] for x in V[s[1]]]
-                val = opv(s[3], V)
-                for site in sites:
-                    H[site][s[2]] = val if len(sites) == 1 else (H[site][s[2]] | val)
-            elif t == "fread":
-                res = frozenset()
-                for x in V[s[2]]:
-                    res |= H[x[1]][s[3]]
-                V[s[1]] = res; log(sid, res)
+                for f, v in classes[s[2]]["fields"]:
+                    TH[(site, f)] = ta if v == "p" else root
+                    SH[(site, f)] = ops(s[3], S) if v == "p" else frozenset()
+                TH[(site, "*")] = root
+                V[s[1]] = frozenset([("o", site)]); T[s[1]] = root; S[s[1]] = frozenset()
+                log(site, V[s[1]], root)
+            elif t == "list":
+                site = key_of(sid)
+                H[site] = {}
+                for i, a in enumerate(s[2]):
+                    H[site][f"#{i}"] = opv(a, V)
+                    TH[(site, f"#{i}")] = opt(a, T) or root
+                    SH[(site, f"#{i}")] = ops(a, S)
+                TH[(site, "*")] = root
+                V[s[1]] = frozenset([("o", site)]); T[s[1]] = root; S[s[1]] = frozenset()
+                log(site, V[s[1]], root)
+            elif t in ("fwrite", "awrite"):
+                field = s[2] if t == "fwrite" else f"#{s[2]}"
+                recv = V[s[1]]
+                if any(x[0] != "o" for x in recv):
+                    raise Reject
+                write_cell(H, TH, SH, recv, field, opv(s[3], V), opt(s[3], T) or T.get(s[1], False) or root, ops(s[3], S))
+                if root:
+                    taint_objects(recv, TH)
+            elif t in ("fread", "aread"):
+                field = s[3] if t == "fread" else f"#{s[3]}"
+                res, tc, st = read_cell(H, TH, SH, V[s[2]], field)
+                V[s[1]] = res; T[s[1]] = tc or T.get(s[2], False) or force; S[s[1]] = st
+                log(key_of(sid), res, T[s[1]], st)
             elif t == "call":
-                h = helpers[s[2]]
-                E = {}
-                hline = line_of[json.dumps(["h", h["name"], h["params"][0]])]
-                for p, a in zip(h["params"], s[3]):
-                    E[p] = opv(a, V)
-                    out.setdefault(("param", hline, p), set()).update(E[p])
-                for j, hs in enumerate(h["body"]):
-                    if hs[0] == "const":
-                        E[hs[1]] = frozenset([tag(hs[2])])
-                    else:
-                        E[hs[1]] = binop(hs[2], opv(hs[3], E), opv(hs[4], E))
-                    log(["h", h["name"], j], E[hs[1]])
-                V[s[1]] = E[h["ret"]]; log(sid, V[s[1]])
+                res, tr, st = call(s[2], s[3], V, T, S, H, TH, SH, root)
+                V[s[1]] = res; T[s[1]] = tr; S[s[1]] = st
+                log(key_of(sid), res, tr, st)
+            elif t == "callp":
+                call(s[1], s[2], V, T, S, H, TH, SH, root)
+            else:
+                raise ValueError(t)
     try:
-        run(prog["body"], [], {}, {})
-    except Reject:
-        return None
-    return {k: sorted(([t, v] for t, v in vals), key=json.dumps) for k, vals in out.items()}
+        run(prog["body"], [], {}, {}, {}, {}, {}, {}, False, False)
+    except (Reject, KeyError):
+        return (None, {"tainted": set(), "stale": {}, "invocations": {}}) if with_taint else None
+    canon = lambda vals: sorted(([t, v] for t, v in vals), key=json.dumps)
+    res = {k: canon(vals) for k, vals in out.items()}
+    if not with_taint:
+        return res
+    return res, {"tainted": tainted, "stale": {k: canon(v) for k, v in stale.items()},
+                 "invocations": {k: [canon(v) for _, v in sorted(d.items())] for k, d in invocations.items()}}
 
 
 def safe_binop_unbounded(op, a, b):
@@ -965,10 +1143,7 @@ def specialise(prog, vec, name):
                 out.append(s)
         return out
     p = dict(prog, body=block(prog["body"]), ndec=0)
-    used = json.dumps(p["body"])
-    # helpers / classes only used in the branches not taken would be reported as "not analysed"
-    p["helpers"] = [h for h in p.get("helpers", []) if f'"{h["name"]}"' in used]
-    p["classes"] = [c for c in p.get("classes", []) if f'"{c["name"]}"' in used]
+    p = prune_unused(p)         # helpers / classes only used in the branches not taken would be "not analysed"
     p = rename_prog(p, name)
     return p
 
@@ -1032,37 +1207,177 @@ def multi_target_write_before(prog, defs, ref, failing_def):
     return False
 
 
-def join_revisit_shape(prog, failing_entries):
-    """Shape test of the findings C08/join-revisit and C09/join-revisit.  A *root site* is a call, an
-    allocation (constructor call) or a field write that comes after an if-join (an `if` statement precedes it
-    in its own block or in an enclosing block).  The shape holds iff every failing definition is explained by
-    a root site: it is the root site itself or comes after it in program order, or it is a parameter / local
-    of a helper one of whose call sites is a root site."""
-    order = []          # (sid, stmt, joined) of the main body in program order
-
-    def walk(body, prefix, joined):
-        for k, s in enumerate(body):
-            sid = prefix + [k]
-            if s[0] == "if":
-                walk(s[2], sid + [0], joined)
-                walk(s[3], sid + [1], joined)
-                joined = True
-            else:
-                order.append((sid, s, joined))
-    walk(prog["body"], [], False)
-    pos = {json.dumps(sid): i for i, (sid, _, _) in enumerate(order)}
-    roots = [i for i, (sid, s, j) in enumerate(order) if j and s[0] in ("call", "new", "fwrite")]
-    root_helpers = {order[i][1][2] for i in roots if order[i][1][0] == "call"}
-    if not roots:
+def join_revisit_shape(prog, defs, failing_entries):
+    """Shape test of the findings C08/join-revisit and C09/join-revisit.  A *root site* is a call, a constructor
+    call, a list literal or a field/element write that comes after an if-join (an `if` statement precedes it in
+    its own block or in an enclosing block).  The shape holds iff EVERY failing definition depends on a root
+    site (see pyref(with_taint=True)): it is the root site's own definition, a parameter or local of the callee
+    invoked there, a read of an object the root site may write, or computed from such values."""
+    res, info = pyref(prog, defs, with_taint=True)
+    tainted = info["tainted"]
+    if res is None or not tainted:
         return False
-    first_root = min(roots)
+    by = {json.dumps([d["sid"], d["var"]]): def_key(d) for d in defs if d["prog"] == prog["name"]}
     for e in failing_entries:
-        sid = e["sid"]
-        if sid and sid[0] == "h":
-            if sid[1] not in root_helpers:
-                return False
-        else:
-            p = pos.get(json.dumps(sid))
-            if p is None or p < first_root:
-                return False
+        k = by.get(json.dumps([e["sid"], e["var"]]))
+        if k is None or k not in tainted:
+            return False
     return True
+
+
+# ------------------------------------------------------------------------------------------------
+# shape generators: aliasing, fields across branches, list elements, helper chains
+# ------------------------------------------------------------------------------------------------
+
+def gen_shape(rng, name, shape, strs=False):
+    """Small randomised programs of one of the shapes
+      "bf"    objects allocated before an if/else; one branch writes a field, the other branch and the code after
+              the join read it (no call / allocation / write after the join: nothing the join-revisit findings cover)
+      "alias" 2-3 names for one object, alias taken before and after writes, by assignment and by parameter
+              passing; after every write a read through every name
+      "list"  list literals with constant indices under the same aliasing, caller- and callee-side element writes
+      "chain" helpers that forward to a second helper (depth 2), called from exactly two sites with different
+              constants / different objects"""
+    pool = rng.sample(range(1, 90), 40)
+    nxt = iter(pool)
+    c = lambda: next(nxt)
+    nv = [0]
+
+    def fresh(p):
+        nv[0] += 1
+        return f"{p}{nv[0]}"
+    cls = {"name": f"K0_{name}", "fields": [["f0", "p"], ["f1", c()]]}
+    classes, helpers, body, ndec = [cls], [], [], 0
+    hn = lambda base: f"{base}_{name}"
+
+    if shape == "bf":
+        objs = []
+        for _ in range(rng.randint(1, 2)):
+            o = fresh("o")
+            body.append(["new", o, cls["name"], ["c", c()]])
+            objs.append(o)
+        names = {o: [o] for o in objs}
+        if rng.random() < 0.4:
+            o = rng.choice(objs)
+            al = fresh("o")
+            body.append(["copy", al, o])
+            names[o].append(al)
+        nm = lambda o: rng.choice(names[o])
+        fld = lambda: rng.choice(["f0", "f1"])
+
+        def branch_pair(depth):
+            nonlocal ndec
+            i = ndec
+            ndec += 1
+            tgt, f = rng.choice(objs), fld()
+            other = rng.choice(objs)
+            th = [["fwrite", nm(tgt), f, ["c", c()]]]
+            el = [["fread", fresh("x"), nm(tgt), f]]
+            if rng.random() < 0.6:
+                th.append(["fread", fresh("x"), nm(other), fld()])
+            if rng.random() < 0.6:
+                el.append(["fwrite", nm(other), fld(), ["c", c()]])
+            if rng.random() < 0.3:
+                th.insert(0, ["fread", fresh("x"), nm(tgt), f])
+            if rng.random() < 0.3:
+                el.append(["fread", fresh("x"), nm(tgt), f])
+            if depth == 0 and rng.random() < 0.25:
+                (th if rng.random() < 0.5 else el).append(branch_pair(1))
+            if rng.random() < 0.5:
+                th, el = el, th
+            return ["if", i, th, el]
+        body.append(branch_pair(0))
+        reads = [(o, f) for o in objs for f in ("f0", "f1")]
+        rng.shuffle(reads)
+        for o, f in reads[:rng.randint(2, 4)]:
+            body.append(["fread", fresh("x"), nm(o), f])
+        if rng.random() < 0.3:
+            body.append(branch_pair(1))
+            for o, f in reads[:2]:
+                body.append(["fread", fresh("x"), nm(o), f])
+
+    elif shape in ("alias", "list"):
+        is_list = shape == "list"
+        fields = [0, 1] if is_list else ["f0", "f1"]
+        wr = "awrite" if is_list else "fwrite"
+        rd = "aread" if is_list else "fread"
+        val = (lambda: rng.choice(["p", "qq", "z9"]) if (strs and rng.random() < 0.3) else c())
+        setters, getters = {}, {}
+
+        def setter(f):
+            if f not in setters:
+                h = {"name": hn(f"set{len(setters)}"), "params": ["a", "v"], "body": [[wr, "a", f, ["v", "v"]]], "ret": None}
+                helpers.append(h); setters[f] = h["name"]
+            return setters[f]
+
+        def getter(f):
+            if f not in getters:
+                h = {"name": hn(f"get{len(getters)}"), "params": ["a"], "body": [[rd, "r", "a", f]], "ret": "r"}
+                helpers.append(h); getters[f] = h["name"]
+            return getters[f]
+        groups = []
+        for _ in range(rng.randint(1, 2)):
+            o = fresh("l" if is_list else "o")
+            if is_list:
+                body.append(["list", o, [["c", val()], ["c", val()]]])
+            else:
+                body.append(["new", o, cls["name"], ["c", c()]])
+            groups.append([o])
+
+        def read_all(g, f):
+            order = list(g)
+            rng.shuffle(order)
+            for y in order:
+                if rng.random() < 0.25:
+                    body.append(["call", fresh("x"), getter(f), [["v", y]]])
+                else:
+                    body.append([rd, fresh("x"), y, f])
+        for _ in range(rng.randint(4, 7)):
+            g = rng.choice(groups)
+            r = rng.random()
+            if r < 0.35 and len(g) < 3:
+                n = fresh("m" if is_list else "o")
+                body.append(["copy", n, rng.choice(g)])
+                g.append(n)
+            else:
+                f = rng.choice(fields)
+                x = rng.choice(g)
+                if rng.random() < 0.3:
+                    body.append(["callp", setter(f), [["v", x], ["c", val()]]])
+                else:
+                    body.append([wr, x, f, ["c", val()]])
+                read_all(g, f)
+                if rng.random() < 0.4:
+                    read_all(g, [y for y in fields if y != f][0])
+        for g in groups:
+            read_all(g, rng.choice(fields))
+
+    elif shape == "chain":
+        inner = {"name": hn("inner"), "params": ["q"], "body": [], "ret": "q"}
+        if rng.random() < 0.5:
+            inner = {"name": hn("inner"), "params": ["q"], "body": [["bin", "q2", "+", ["v", "q"], ["c", c()]]], "ret": "q2"}
+        outer = {"name": hn("outer"), "params": ["p"], "body": [["call", "t", inner["name"], [["v", "p"]]]], "ret": "t"}
+        if rng.random() < 0.4:
+            outer["body"].append(["bin", "u", "+", ["v", "t"], ["c", c()]])
+            outer["ret"] = "u"
+        setf = {"name": hn("setf"), "params": ["o", "v"], "body": [["fwrite", "o", "f0", ["v", "v"]]], "ret": None}
+        wrap = {"name": hn("wrap"), "params": ["o", "v"], "body": [["callp", setf["name"], [["v", "o"], ["v", "v"]]]], "ret": None}
+        getf = {"name": hn("getf"), "params": ["o"], "body": [["fread", "r", "o", "f0"]], "ret": "r"}
+        rdw = {"name": hn("rdw"), "params": ["o"], "body": [["call", "s", getf["name"], [["v", "o"]]]], "ret": "s"}
+        helpers += [inner, outer, setf, wrap, getf, rdw]
+        parts = []
+        parts.append([["call", fresh("x"), outer["name"], [["c", c()]]], ["call", fresh("x"), outer["name"], [["c", c()]]]])
+        a, b = fresh("o"), fresh("o")
+        objpart = [["new", a, cls["name"], ["c", c()]], ["new", b, cls["name"], ["c", c()]],
+                   ["callp", wrap["name"], [["v", a], ["c", c()]]], ["callp", wrap["name"], [["v", b], ["c", c()]]],
+                   ["fread", fresh("x"), a, "f0"], ["fread", fresh("x"), b, "f0"]]
+        if rng.random() < 0.5:
+            objpart += [["call", fresh("x"), rdw["name"], [["v", a]]], ["call", fresh("x"), rdw["name"], [["v", b]]]]
+        parts.append(objpart)
+        rng.shuffle(parts)
+        for part in parts:
+            body += part
+    else:
+        raise ValueError(shape)
+    p = {"name": name, "ndec": ndec, "classes": classes, "helpers": helpers, "body": body}
+    return prune_unused(p)
